@@ -396,11 +396,17 @@ pub fn run(ctx: &Ctx) -> i32 {
     let mut rep = Report::new();
     run_cases(ctx, &mut rep, "histories", ctx.cases(300_000, 6_000_000), case);
     run_cases(ctx, &mut rep, "long", ctx.cases(32, 600), case_long);
+    // the real daemon: qualification and expiry of a new foreign master in real time
+    let workers = (ctx.threads as u64 / 2).clamp(2, 8);
+    let sum = crate::daemon::run_part(ctx, &mut rep, ctx.cases(4 * workers, 80 * workers), workers);
+    if let Some(why) = &sum.skipped {
+        println!("note: end-to-end daemon part skipped ({}); the other parts are unaffected", why);
+    }
     finish(
         Finish {
             ctx,
             level: "exploration",
-            rule: "part histories: one port (1/3 of the cases a second idle port with a 2, 4 or 8 times shorter announce interval so that BMCA and announce periods differ), announce log interval -2..1, receipt timeout 2..4, horizon 16 announce intervals + 8 of silence; 1-3 masters (1/9 of the cases 9-10, beyond the record capacity) each with a per-interval arrival pattern (absent, once, duplicated, two with reordered ids, stale id; runs of presence/absence; single isolated Announce), first sequence id 0..999 or 65530..65535, stepsRemoved 0/1/3/254 or >= 255, foreign identity or the own clock identity, random arrival phase per interval, random BMCA phase; the announce receipt timer and all other timers are live (host timer model). After every BMCA an independent time-based reception record is consulted: necessary conditions always, the sufficient and expiry clauses for clean patterns (DESIGN.md C06). Non-trivial = a qualification and (a loss/change of parent or a sequence wrap); distinct by scenario. Part long: one or two masters announcing in every interval (an occasional gap or duplicate every 500-4500 intervals) over 33000-80000 announce intervals - a complete sequence-number cycle 65535->0 plus half of the next - same oracle after every BMCA; non-trivial = qualified and wrap crossed.",
+            rule: "part histories: one port (1/3 of the cases a second idle port with a 2, 4 or 8 times shorter announce interval so that BMCA and announce periods differ), announce log interval -2..1, receipt timeout 2..4, horizon 16 announce intervals + 8 of silence; 1-3 masters (1/9 of the cases 9-10, beyond the record capacity) each with a per-interval arrival pattern (absent, once, duplicated, two with reordered ids, stale id; runs of presence/absence; single isolated Announce), first sequence id 0..999 or 65530..65535, stepsRemoved 0/1/3/254 or >= 255, foreign identity or the own clock identity, random arrival phase per interval, random BMCA phase; the announce receipt timer and all other timers are live (host timer model). After every BMCA an independent time-based reception record is consulted: necessary conditions always, the sufficient and expiry clauses for clean patterns (DESIGN.md C06). Non-trivial = a qualification and (a loss/change of parent or a sequence wrap); distinct by scenario. Part daemon: against the real statime daemon in real time (announce interval 125 ms, observation socket polled every 20 ms): a new, better master on the slave port's segment sends k Announces and falls silent - k = 1 never makes it the parent; k >= 6 makes it the parent within 4 intervals + 0.6 s of its second Announce and it is dropped within 6 intervals + 0.8 s of its last; a master with stepsRemoved >= 255 or with the daemon's own clock identity never becomes parent; first sequence ids around 65535 and 0x8000. Part long: one or two masters announcing in every interval (an occasional gap or duplicate every 500-4500 intervals) over 33000-80000 announce intervals - a complete sequence-number cycle 65535->0 plus half of the next - same oracle after every BMCA; non-trivial = qualified and wrap crossed.",
             assumptions: vec!["window slack of one BMCA period (record ages advance in BMCA-period quanta)".into(), "receptions are counted generously on the necessary side (duplicates and stale ids count)".into()],
             min_nontrivial: 100,
         },
@@ -411,6 +417,9 @@ pub fn run(ctx: &Ctx) -> i32 {
 pub fn replay(ctx: &Ctx, path: &str) -> i32 {
     let s = std::fs::read_to_string(path).expect("read replay");
     let v: serde_json::Value = serde_json::from_str(&s).expect("parse");
+    if v["part"].as_str() == Some("daemon") {
+        return crate::daemon::replay_part(ctx, path, 3);
+    }
     if v["part"].as_str() == Some("long") {
         return replay_file(ctx, path, case_long);
     }
